@@ -271,6 +271,12 @@ class CallMixin:  # pylint:disable=too-many-public-methods
                 obj.fields[n] = self.eval(d, Frame(None, cls.module, None, set())) if d is not None else None
             else:
                 self.raise_("TypeError", f"{cls.name}() missing required argument '{n}'")
+        for n, info in fields.items():
+            conv = info.get("converter")
+            if conv is not None:
+                from .fdai import Frame
+                cfn = self.eval(conv, Frame(None, cls.module, None, set()))
+                obj.fields[n] = self.call(cfn, [obj.fields[n]], {}, node, frame)
         return obj
 
     # ------------------------------------------------------------------ attribute access
@@ -368,6 +374,8 @@ class CallMixin:  # pylint:disable=too-many-public-methods
                     return self.attr_memo[key]
             if attr == "__name__":
                 return v.name.rsplit(".", 1)[-1]
+            if cls is None and attr.isupper():
+                return EnumVal(v.name, attr, attr)  # member of an external enum (e.g. maus' DataElementDataType)
             raise Unsupported(f"class attribute {v.name}.{attr}")
         if isinstance(v, ExtVal):
             if v.name.startswith("module:"):
